@@ -9,6 +9,7 @@ namespace e1 {
 // ------------------------------------------------------------------ builders
 static ref::Prop glue_typical(uint8_t id) { auto d = ref::prop_def(id); switch (d->kind) { case ref::K_BYTE: return ref::pnum(id, 1); case ref::K_U16: return ref::pnum(id, 0x1234); case ref::K_U32: return ref::pnum(id, 0x01020304); case ref::K_VARINT: return ref::pnum(id, 300);
     case ref::K_UTF8: return ref::pstr(id, "str"); case ref::K_BIN: return ref::pstr(id, std::string("\x00\x01\xff", 3)); default: return ref::ppair("k", "v"); } }
+static std::string rep_hex(const std::string& b) { static const char* d = "0123456789abcdef"; std::string o; for (unsigned char c : b) { o.push_back(d[c >> 4]); o.push_back(d[c & 15]); } return o; }
 static Action A(Action::K k) { Action a; a.k = k; return a; }
 static Action RUN() { return A(Action::RUN); }
 static Action PUB(int qos, int tag, bool retain = false, ref::Props props = {}) { Action a = A(Action::PUB); a.qos = qos; a.tag = tag; a.retain = retain; a.topic = "t/" + std::to_string(tag); a.payload = "payload-" + std::to_string(tag); a.props = std::move(props); return a; }
@@ -42,7 +43,7 @@ static bool publish_matches(const ref::Packet& p, const OpRec& o) {
 
 // C01 ---------------------------------------------------------------------------------------
 static void mon_c01(World& w) {
-    auto& wire = w.broker->wire; const std::string& sn = w.sc.name;
+    auto& wire = w.broker->wire; const std::string sn = w.sc.family();
     for (auto& o : w.ops) {
         if (o.kind != Action::PUB || o.qos == 0 || o.completions == 0 || o.ec) continue;
         size_t lim = o.wire_mark_done; bool ok = false, saw_publish = false, saw_same_payload = false; std::string why = "no PUBLISH with the caller's fields reached the broker before the completion";
@@ -77,7 +78,7 @@ static bool transport_error(const error_code& ec) {
            ec == asio::error::connection_refused || ec == asio::error::connection_aborted || ec == asio::error::try_again || ec == asio::error::no_recovery || ec == asio::error::bad_descriptor;
 }
 static void mon_c02(World& w, const char* prop) {
-    const std::string& sn = w.sc.name; std::string P = prop;
+    const std::string sn = w.sc.family(); std::string P = prop;
     if (w.capped && w.cap_reason.rfind("REPLAY", 0) == 0) return;
     for (auto& o : w.ops) {
         if (!is_user_op(o) || o.expect_reject) continue;
@@ -115,7 +116,7 @@ static std::vector<std::pair<size_t, std::string>> packets_in(const std::string&
     return v;
 }
 static void mon_c03(World& w) {
-    const std::string& sn = w.sc.name;
+    const std::string sn = w.sc.family();
     for (auto& o : w.ops) {
         if (o.kind != Action::PUB || o.qos == 0) continue;
         // transmissions of this message as the client wrote them (write log), in order
@@ -146,7 +147,7 @@ static void mon_c03(World& w) {
 
 // C06 ---------------------------------------------------------------------------------------
 static void mon_c06(World& w) {
-    const std::string& sn = w.sc.name; auto& wire = w.broker->wire;
+    const std::string sn = w.sc.family(); auto& wire = w.broker->wire;
     std::map<std::string, int> op_of; for (auto& o : w.ops) if (o.kind == Action::PUB) op_of[o.payload] = o.id;
     for (size_t c = 0; c < w.broker->cs.size(); ++c) {
         bool rm_announced = false; for (auto& q : w.broker->cs[c].connack_props_sent) if (q.id == 0x21) rm_announced = true;
@@ -159,7 +160,7 @@ static void mon_c06(World& w) {
 
 // C08 (wire half) -----------------------------------------------------------------------------
 static void mon_c08(World& w) {
-    const std::string& sn = w.sc.name; auto& wire = w.broker->wire;
+    const std::string sn = w.sc.family(); auto& wire = w.broker->wire;
     // which op does a client packet belong to
     auto owner = [&](const ref::Packet& p) -> int { for (auto& o : w.ops) {
             if (o.kind == Action::PUB && p.type == ref::PUBLISH && p.payload == o.payload) return o.id;
@@ -180,7 +181,7 @@ static void mon_c08(World& w) {
 
 // C07 ---------------------------------------------------------------------------------------
 static void mon_c07(World& w) {
-    const std::string& sn = w.sc.name;
+    const std::string sn = w.sc.family();
     for (size_t c = 0; c < w.broker->cs.size(); ++c) { auto& s = w.broker->cs[c];
         if (s.max_inflight > s.receive_maximum) w.vio("C07:receive-maximum-exceeded:" + sn, "connection " + std::to_string(c) + ": " + std::to_string(s.max_inflight) + " unacknowledged QoS>0 exchanges in flight with Receive Maximum " + std::to_string(s.receive_maximum)); }
     mon_c02(w, "C07");   // starvation: throttled publishes must get out once quota is available
@@ -192,12 +193,12 @@ static void mon_broker(World& w) {
         bool want = (prop == "C17" && (w.sc.monitors & M_C17)) || (prop == "C10" && (w.sc.monitors & M_C10)) || (prop == "C04" && (w.sc.monitors & M_C04));
         if (!want) continue;
         std::string key = v.substr(5, 40); for (auto& ch : key) if (ch == ' ' || ch == ':') ch = '-'; (void)col;
-        w.vio(prop + ":wire:" + key + ":" + w.sc.name, v); }
+        w.vio(prop + ":wire:" + key + ":" + w.sc.family(), v); }
 }
 
 // C05 (drain + exactly-once) ------------------------------------------------------------------
 static void mon_c05(World& w) {
-    const std::string& sn = w.sc.name;
+    const std::string sn = w.sc.family();
     if (w.capped && w.cap_reason.rfind("REPLAY", 0) == 0) return;
     for (auto& o : w.ops) {
         if (o.completions > 1) w.vio("C05:completed-twice:" + opname(o) + ":" + sn, opname(o) + " handler ran " + std::to_string(o.completions) + " times");
@@ -215,7 +216,7 @@ static void mon_c05(World& w) {
 
 // C05 additions: operations outstanding when the client was stopped must end with operation_aborted ---------
 static void mon_c05_stop(World& w) {
-    const std::string& sn = w.sc.name;
+    const std::string sn = w.sc.family();
     if (!w.stop_snap.done) return;
     std::string what = w.sc.inject ? std::string(w.sc.inject->k == Action::CANCEL ? "cancel" : w.sc.inject->k == Action::DISC ? "async_disconnect" : w.sc.inject->k == Action::DESTROY ? "destruction" : w.sc.inject->k == Action::MOVE_ASSIGN ? "move-assignment" : "stop") : "stop";
     for (auto& o : w.ops) {
@@ -233,7 +234,7 @@ static void mon_c05_stop(World& w) {
 
 // C09 ---------------------------------------------------------------------------------------
 static void mon_c09(World& w) {
-    const std::string& sn = w.sc.name;
+    const std::string sn = w.sc.family();
     const OpRec* d = nullptr; for (auto& o : w.ops) if (o.kind == Action::DISC && !o.expect_reject) { d = &o; break; }
     if (!d) return;
     if (d->completions == 0) { if (!(w.capped && w.cap_reason.rfind("REPLAY", 0) == 0)) w.vio("C09:never-completed:" + sn, "async_disconnect never completed"); return; }
@@ -269,7 +270,7 @@ static void mon_c09(World& w) {
 
 // C10 ---------------------------------------------------------------------------------------
 static void mon_c10(World& w) {
-    const Scenario& sc = w.sc; const std::string& sn = sc.name; auto& wire = w.broker->wire;
+    const Scenario& sc = w.sc; const std::string sn = sc.family(); auto& wire = w.broker->wire;
     // CONNECT contents
     ref::Props expp = sc.connect_props; if (sc.auth.present) { expp.erase(std::remove_if(expp.begin(), expp.end(), [](const ref::Prop& p) { return p.id == 0x15 || p.id == 0x16; }), expp.end()); expp.push_back(ref::pstr(0x15, sc.auth.method)); expp.push_back(ref::pstr(0x16, "init")); }
     for (size_t c = 0; c < w.net->conns.size(); ++c) {
@@ -323,7 +324,7 @@ static void mon_c10(World& w) {
 
 // C11 (system half) -------------------------------------------------------------------------
 static void mon_c11(World& w) {
-    const std::string& sn = w.sc.name;
+    const std::string sn = w.sc.family();
     if (w.net->max_attempts_in_progress > 1) w.vio("C11:overlapping-attempts:" + sn, std::to_string(w.net->max_attempts_in_progress) + " connection attempts were in progress at the same time");
     if (w.net->connects_after_stop > 0) w.vio("C11:connect-after-cancel:" + sn, "a connection attempt started after cancel()");
     mon_c02(w, "C11");
@@ -331,7 +332,7 @@ static void mon_c11(World& w) {
 
 // C12 ---------------------------------------------------------------------------------------
 static void mon_c12(World& w) {
-    const Scenario& sc = w.sc; const std::string& sn = sc.name; auto& wire = w.broker->wire;
+    const Scenario& sc = w.sc; const std::string sn = sc.family(); auto& wire = w.broker->wire;
     for (size_t c = 0; c < w.broker->cs.size(); ++c) { auto& cs = w.broker->cs[c]; if (!cs.handshake_ok) continue;
         int K = sc.keep_alive; for (auto& q : cs.connack_props_sent) if (q.id == 0x13) K = int(q.num);
         int64_t Kns = int64_t(K) * 1000000000LL; const sim::Conn& conn = w.net->conns[c]; auto& st = w.net->streams[conn.stream];
@@ -374,7 +375,7 @@ static void mon_c12(World& w) {
 
 // C13 ---------------------------------------------------------------------------------------
 static void mon_c13(World& w) {
-    const std::string& sn = w.sc.name; auto& wire = w.broker->wire;
+    const std::string sn = w.sc.family(); auto& wire = w.broker->wire;
     // reference: replay the broker's handshake history and the successful subscriptions
     struct Ev { size_t mark; int kind; int conn; };   // kind 0 = successful subscription (by completion mark), 1 = handshake (sp), 2 = handshake (no sp)
     std::vector<Ev> evs;
@@ -408,7 +409,7 @@ static void mon_c13(World& w) {
 
 // C14 ---------------------------------------------------------------------------------------
 static void mon_c14(World& w) {
-    const std::string& sn = w.sc.name; auto& wire = w.broker->wire;
+    const std::string sn = w.sc.family(); auto& wire = w.broker->wire;
     for (auto& o : w.ops) { if ((o.kind != Action::SUB && o.kind != Action::UNSUB) || !o.completions || o.ec) continue;
         int reqt = o.kind == Action::SUB ? ref::SUBSCRIBE : ref::UNSUBSCRIBE, ackt = o.kind == Action::SUB ? ref::SUBACK : ref::UNSUBACK; size_t n = o.filters.size();
         bool ok = false; std::string why = "the broker never received the request with exactly the given topics, options and properties";
@@ -426,7 +427,7 @@ static void mon_c14(World& w) {
 
 // C15 / C16 (API level) -----------------------------------------------------------------------
 static void mon_reject(World& w, const char* prop) {
-    const std::string& sn = w.sc.name; std::string P = prop;
+    const std::string sn = w.sc.family(); std::string P = prop;
     for (auto& o : w.ops) { if (!o.expect_reject) continue;
         std::string what = opname(o) + ":" + std::to_string(o.tag);
         if (o.completions == 0) { w.vio(P + ":reject-not-completed:" + sn, "request " + what + " that must be rejected never completed"); continue; }
@@ -441,7 +442,7 @@ static void mon_reject(World& w, const char* prop) {
         w.vio(P + ":rejected-valid:" + opname(o) + ":" + std::to_string(o.ec.value()) + ":" + sn, "valid request " + opname(o) + ":" + std::to_string(o.tag) + " was rejected with '" + o.ec.message() + "'"); }
 }
 static void mon_c15(World& w) {
-    const std::string& sn = w.sc.name; auto& wire = w.broker->wire;
+    const std::string sn = w.sc.family(); auto& wire = w.broker->wire;
     for (auto& e : wire) { if (!e.c2b || e.malformed) continue; auto& cs = w.broker->cs[e.conn]; if (!cs.handshake_ok) continue;
         int max_qos = 2, retain_av = 1, alias_max = 0, wild = 1, shared = 1, subid = 1; uint32_t max_size = 0xFFFFFFFFu;
         for (auto& q : cs.connack_props_sent) { if (q.id == 0x24) max_qos = int(q.num); if (q.id == 0x25) retain_av = int(q.num); if (q.id == 0x22) alias_max = int(q.num); if (q.id == 0x28) wild = int(q.num); if (q.id == 0x2A) shared = int(q.num); if (q.id == 0x29) subid = int(q.num); if (q.id == 0x27) max_size = q.num; }
@@ -468,7 +469,7 @@ static bool ack_delivered_but_write_failed(World& w, int t, uint16_t pid) {
     return false;
 }
 static void mon_c04(World& w) {
-    const std::string& sn = w.sc.name; auto& wire = w.broker->wire;
+    const std::string sn = w.sc.family(); auto& wire = w.broker->wire;
     if (w.capped && w.cap_reason.rfind("REPLAY", 0) == 0) return;
     // ack discipline per connection
     for (size_t c = 0; c < w.broker->cs.size(); ++c) {
@@ -523,7 +524,7 @@ void run_monitors(World& w) {
     uint32_t m = w.sc.monitors;
     mon_broker(w);
     if (m & M_C01) mon_c01(w);
-    if (m & M_C02) mon_c02(w, "C02");
+    if ((m & M_C02) && !w.broker->starving_connack) mon_c02(w, "C02");
     if (m & M_C03) mon_c03(w);
     if (m & M_C05) mon_c05(w);
     if (m & M_C06) mon_c06(w);
@@ -579,6 +580,9 @@ std::vector<Scenario> scenarios_for(const std::string& prop, int tier) {
         auto s2121 = base("O-2121", {RUN(), PUB(2, 1), PUB(1, 2), PUB(2, 3), PUB(1, 4)}, fam, tier ? 2 : 1, M_C06);
         auto late = base("O-late-publish", {RUN(), PUB(1, 1), PUB(2, 2), WAIT_HS(2), PUB(1, 3), PUB(0, 4)}, fam, 2, M_C06);
         for (auto& s : {s111, s121, s012, s2121, late}) { v.push_back(s); v.push_back(rm(s, 1)); v.push_back(rm(s, 2)); }
+        // the Receive Maximum differs from one connection to the next (announced -> absent, absent -> announced, 2 -> 1)
+        { int k = 0; for (auto& seq : std::vector<std::vector<int>>{{1, 0}, {0, 1}, {2, 1}, {1, 0, 1}}) for (auto* b : {&s012, &s2121, &late}) { Scenario s = *b; s.name += "-rmseq" + std::to_string(k);
+              for (int r : seq) s.broker.connack_props_script.push_back(r ? ref::Props{ref::pnum(0x21, uint32_t(r))} : ref::Props{}); s.fam |= F_CONN; v.push_back(s); } k++; }
         { auto s = s121; s.name = "O-121-serial-wrap"; s.initial_last_serial = 0xFFFFFFFDu; v.push_back(s); v.push_back(rm(s, 1)); }
         { auto s = s2121; s.name = "O-2121-serial-wrap"; s.initial_last_serial = 0xFFFFFFFEu; v.push_back(s); }
         if (tier) for (auto& s : v) if (s.script.size() <= 4) s.D = 3;
@@ -595,6 +599,9 @@ std::vector<Scenario> scenarios_for(const std::string& prop, int tier) {
             for (int victim = 1; victim <= 3; ++victim) { auto s = mk("R-cancel-op" + std::to_string(victim), {RUN(), slot(PUB(1, 1)), slot(PUB(2, 2)), slot(PUB(1, 3))}, 2);
                 s.fam |= F_INJECT; s.inject = SIGNAL(victim, 1); v.push_back(s); }
         }
+        // the Receive Maximum changes from one connection to the next: the quota must follow the current connection's CONNACK
+        { int k = 0; for (auto& seq : std::vector<std::vector<int>>{{3, 1}, {1, 3}, {0, 1}, {1, 0}, {2, 1, 2}}) { auto s = base("R-21212-rmseq" + std::to_string(k++), {RUN(), PUB(2, 1), PUB(1, 2), PUB(2, 3), PUB(1, 4), PUB(2, 5)}, fam | F_CONN, 2, M_C07 | M_C06);
+              for (int r : seq) s.broker.connack_props_script.push_back(r ? ref::Props{ref::pnum(0x21, uint32_t(r))} : ref::Props{}); v.push_back(s); } }
     }
     else if (prop == "C08") {
         uint32_t fam = F_WR | F_RDCUT | F_REORDER | F_DELAY | F_BCLOSE;
@@ -679,6 +686,12 @@ std::vector<Scenario> scenarios_for(const std::string& prop, int tier) {
             s.idle_tail_s = negotiated == 0 ? 3600 : std::max(20, negotiated * 5); s.max_steps = 3000; s.horizon_s = 100000; s.expect_all_success = false;
             v.push_back(s); if (traffic == 0 && (K == 2 || ska == 1)) { s.name += "-tcp"; s.flavour = 1; v.push_back(s); }
         }
+        // the negotiated keep-alive changes from one connection to the next (Server Keep Alive appears / shrinks / disappears), session resumed or not
+        { int k = 0; for (auto& seq : std::vector<std::vector<int>>{{-1, 1}, {5, 1}, {1, 5}, {2, -1}, {-1, 2, 1}}) for (int K : {0, 10}) for (int sp0 : {0, 1}) {
+              Scenario s = base("T-skaseq" + std::to_string(k++), {RUN(), WAIT_HS(1), A(Action::KILLCONN), WAIT_HS(2)}, F_REORDER, 1, M_C12); s.keep_alive = uint16_t(K);
+              for (int v_ : seq) s.broker.connack_props_script.push_back(v_ >= 0 ? ref::Props{ref::pnum(0x13, uint32_t(v_))} : ref::Props{});
+              if (seq.size() > 2) { s.script.push_back(A(Action::KILLCONN)); s.script.push_back(WAIT_HS(3)); }
+              s.broker.sp_policy = {-1, sp0 ? -1 : 0, -1}; s.idle_tail_s = 40; s.max_steps = 3000; s.horizon_s = 100000; s.expect_all_success = false; v.push_back(s); } }
     }
     else if (prop == "C13") {
         // all sequences up to the length over {S ok, F all failed, X cancelled subscribe, R0 reconnect sp=0, R1 reconnect sp=1, M broker publishes}
@@ -791,6 +804,45 @@ std::vector<Scenario> scenarios_for(const std::string& prop, int tier) {
         { auto s = base("M4-interleaved-with-publishing", {RUN(), RECV(12), SUB({{"b/#", 2}}), BARRIER(), BPUB(2, 1), PUB(2, 50), BPUB(1, 2), PUB(1, 51)}, fam & ~F_CHUNK, tier ? 2 : 1, M_C04 | M_C01); v.push_back(s); }
         { auto s = base("M5-session-lost", {RUN(), RECV(12), SUB({{"b/#", 2}}), BARRIER(), BPUB(2, 1), BPUB(1, 2)}, fam & ~F_CHUNK, 2, M_C04); s.broker.sp_policy = {-1, 0, -1}; v.push_back(s); }
         for (auto& s : v) s.expect_all_success = false;
+    }
+    else if (prop == "C19") {
+        // hostile broker: byte strings replace / precede the expected reply in six client phases, under every chunking
+        static const unsigned char ALQ[] = {0x00, 0x01, 0x02, 0x20, 0x30, 0x40, 0x62, 0x90, 0xE0, 0xFF};
+        static const unsigned char ALT[] = {0x00, 0x01, 0x02, 0x03, 0x10, 0x20, 0x30, 0x32, 0x40, 0x50, 0x62, 0x70, 0x7F, 0x80, 0x90, 0xB0, 0xD0, 0xE0, 0xF0, 0xFF};
+        const unsigned char* AL = tier ? ALT : ALQ; int na = tier ? 20 : 10;
+        std::vector<std::string> strs; for (int a = 0; a < na; ++a) { strs.push_back(std::string(1, char(AL[a]))); for (int b = 0; b < na; ++b) { std::string x; x.push_back(char(AL[a])); x.push_back(char(AL[b])); strs.push_back(x); for (int c = 0; c < na; ++c) { std::string y = x; y.push_back(char(AL[c])); strs.push_back(y); } } }
+        // a few longer classics: short acks, negative remaining length in the handshake, oversize lengths
+        for (auto& x : {std::string("\x40\x00", 2), std::string("\x40\x01\x00", 3), std::string("\x50\x01\x07", 3), std::string("\x90\x01\x00", 3), std::string("\x20\x00\x00\x00\x00\x00\x00\x00", 8), std::string("\x20\x01\x00\x00\x00\x00", 6),
+                        std::string("\x20\x04\x00\x00\x7f\x26", 6), std::string("\x20\x00\x00\x00\x00", 5) + std::string(64, '\xAA'), std::string("\x20\x02\x00\x00\x00", 5) + std::string(200, '\x00'), std::string("\x30\xff\xff\xff\x7f", 5), std::string("\x30\xff\xff\xff\xff\x01", 6), std::string("\xF0\x02\x00\x05", 4), std::string("\xE0\x03\x00\x01\x1f", 5)}) strs.push_back(x);
+        struct Ph { const char* name; std::vector<Action> script; int on_type; int nth; std::string reply; };
+        ref::Packet pa; pa.type = ref::PUBACK; pa.pid = 1; pa.has_pid = true; pa.has_rc = true; pa.rc = 0; pa.has_props = true; pa.props = {ref::pstr(0x1F, "ok")};
+        ref::Packet pr = pa; pr.type = ref::PUBREC; ref::Packet pc = pa; pc.type = ref::PUBCOMP; ref::Packet sa; sa.type = ref::SUBACK; sa.pid = 1; sa.has_pid = true; sa.rcs = {1, 2}; sa.props = {ref::ppair("k", "v")};
+        ref::Packet ca; ca.type = ref::CONNACK; ca.rc = 0; ca.has_rc = true; ca.props = {ref::pnum(0x21, 10), ref::pstr(0x1F, "hi")};
+        std::vector<Ph> phases = {
+            {"handshake", {RUN(), PUB(1, 1)}, ref::CONNECT, 1, ref::encode(ca)},
+            {"idle", {RUN(), WAIT_HS(1), A(Action::BRAW), PUB(1, 1)}, 0, 0, ""},
+            {"qos1-inflight", {RUN(), PUB(1, 1)}, ref::PUBLISH, 1, ref::encode(pa)},
+            {"qos2-await-pubrec", {RUN(), PUB(2, 1)}, ref::PUBLISH, 1, ref::encode(pr)},
+            {"qos2-await-pubcomp", {RUN(), PUB(2, 1)}, ref::PUBREL, 1, ref::encode(pc)},
+            {"subscribe-inflight", {RUN(), SUB({{"a", 1}, {"b/#", 2}})}, ref::SUBSCRIBE, 1, ref::encode(sa)},
+        };
+        int id = 0;
+        auto add = [&](const Ph& ph, const std::string& raw, const char* kind) {
+            Scenario s = base(std::string("Z-") + ph.name + "-" + kind + "-" + std::to_string(id++), ph.script, F_CHUNK | F_BYTE, std::min<int>(tier ? 4 : 2, int(raw.size()) - 1), M_C19 | M_C01 | M_C14 | M_C02);
+            if (s.D < 0) s.D = 0;
+            if (ph.on_type) { s.broker.hostile.enabled = true; s.broker.hostile.on_type = ph.on_type; s.broker.hostile.nth = ph.nth; s.broker.hostile.raw = raw; }
+            else for (auto& a : s.script) if (a.k == Action::BRAW) a.payload = raw;
+            s.max_steps = 400; s.expect_note = rep_hex(raw); v.push_back(s); };
+        for (auto& ph : phases) {
+            for (auto& x : strs) add(ph, x, "str");
+            if (ph.reply.empty()) continue;
+            // every truncation of the expected reply and single-byte substitutions
+            for (size_t t = 1; t < ph.reply.size(); ++t) add(ph, ph.reply.substr(0, t), "trunc");
+            static const int VQ[] = {0x00, 0x01, 0x02, 0x7F, 0x80, 0xFF, -1, -2}; 
+            for (size_t i = 0; i < ph.reply.size(); ++i) { if (tier) { for (int vv = 0; vv < 256; vv += 1) { if (vv == uint8_t(ph.reply[i])) continue; if (!tier) break; std::string m = ph.reply; m[i] = char(vv); if (vv % 3 == int(i % 3) || vv < 4 || vv > 0xFB) add(ph, m, "subst"); } }
+                else for (int vv : VQ) { int val = vv == -1 ? uint8_t(ph.reply[i]) + 1 : vv == -2 ? uint8_t(ph.reply[i]) - 1 : vv; if ((val & 0xFF) == uint8_t(ph.reply[i])) continue; std::string m = ph.reply; m[i] = char(val); add(ph, m, "subst"); } }
+            add(ph, ph.reply + std::string("\x00", 1), "extend"); add(ph, ph.reply + ph.reply, "double");
+        }
     }
     else if (prop == "C17") {
         v = publish_scenarios(M_C17, 0); for (auto& s : v) s.D = 1;
